@@ -246,10 +246,62 @@ def add_quad_box_theorem(u, cv, lq):
     u.add(cv.path, thm_fn('thm_bounding_box_%s' % cv.mod, ['b: %s<R>' % N, 'w: R'], pre, '\n'.join(lines) + '\n', asserts, 'C15'))
 
 
+def triangle_lemmas():
+    out = []
+    for n in (2, 3):
+        a, b = SV.params('a', n), SV.params('b', n)
+        ma, mb, mc = var('ma'), var('mb'), var('mc')
+        out.append(L.Lemma('lemma_triangle%d' % n, a.e + b.e + [ma, mb, mc],
+                           [ma.ge(0), mb.ge(0), mc.ge(0), (ma * ma).eq(a.norm2()), (mb * mb).eq(b.norm2()), (mc * mc).eq((a + b).norm2())],
+                           [mc.le(ma + mb)], doc='triangle inequality for the Euclidean norm (radicals as free symbols)'))
+    return out
+
+
+def bern_end_lemma(deg):
+    ps = [var('p%d' % i) for i in range(deg + 1)]
+    t = var('t')
+    return L.Lemma('lemma_bern%d_at_one' % deg, ps + [t], [t.eq(1)], [bern(deg, [SV([q]) for q in ps], t)[0].eq(ps[-1])],
+                   doc='a Bezier curve passes through its last control point at t = 1')
+
+
+def add_length(u, cv):
+    """length_by_discretization: the polyline through curve points from t=0 to t=1 is at least as long as the chord"""
+    P, N = cv.path, cv.name
+    gh = 'impl<T: Real> %s<T>' % N
+    sh = cv.sh
+    pts = cv.points('self')
+    k = leaf('(it.index@ as real / (step_count as real + 1real))')
+    at_k = bern(cv.deg, pts, k)
+    start = SV.of(sh, 'self.start')
+    end = SV.of(sh, 'self.end')
+    prev = SV.of(sh, 'prev_point')
+    d2 = lambda a, b: X.verus((a - b).norm2())
+    inv = ['prev_point.%s.v@ == %s' % (f, X.verus(at_k[i])) for i, f in enumerate(sh.fields)]
+    inv += ['length.v@ >= sqrt_r(%s)' % d2(prev, start), 'length.v@ >= 0real']
+    inv += ['(it.index@ == step_count as int + 1) ==> (%s)' % ' && '.join('prev_point.%s.v@ == self.end.%s.v@' % (f, f) for f in sh.fields)]
+    entry = ('proof { lemma_sqrt_zero();\n'
+             '    %s }' % ' '.join('assert(prev_point.%s.v@ == self.start.%s.v@);' % (f, f) for f in sh.fields))
+    last = ('proof { if i == step_count { let ghost n1 = step_count as real + 1real; lemma_div_self(n1); assert(t.v@ == 1real); assert(1real - t.v@ == 0real); %s } }'
+            % ' '.join('crate::lemma_bern%d_at_one(%s, t.v@); assert(next_point.%s.v@ == self.end.%s.v@);'
+                       % (cv.deg, ', '.join('self.%s.%s.v@' % (q, f) for q in cv.pts), f, f) for f in sh.fields))
+    nxt = SV.of(sh, 'next_point')
+    # ghost block at the end of the loop body: one triangle-inequality step
+    tri = ('proof { let ghost da = %s; let ghost db = %s; let ghost dc = %s; axiom_sqrt(da); axiom_sqrt(db); axiom_sqrt(dc);\n'
+           '    crate::lemma_triangle%d(%s, %s, sqrt_r(da), sqrt_r(db), sqrt_r(dc)); }'
+           % (d2(prev, start), d2(nxt, prev), d2(nxt, start), sh.dim,
+              ', '.join(X.verus(e) for e in (prev - start).e), ', '.join(X.verus(e) for e in (nxt - prev).e)))
+    u.take(P, gh, 'length_by_discretization', C(
+        ensures=['res.v@ >= sqrt_r(%s)' % d2(end, start)],
+        loops=[dict(iter='it', invariant=inv)],
+        inserts=[('prev_point = next_point;', tri + '\n' + last), ('for i in', entry)]))
+
+
 def plan(exp, tier):
     p = driver.Plan('C15')
     u = vec_unit(exp, 'c15', [VEC['Vec2'], VEC['Vec3'], VEC['Vec4']])
     veccore.add_conversions(u, only=('Vec2', 'Vec3', 'Vec4'))
+    for nm in ('Vec2', 'Vec3'):
+        veccore.add_spatial_basic(u, VEC[nm])
     opscore.add_traits(u, ('Clamp', 'Lerp'))
     opscore.add_float_impls(u, ('Clamp', 'Lerp'))
     lq = quad_lemma()
@@ -261,6 +313,7 @@ def plan(exp, tier):
         add_quadratic(u, cv)
         add_quad_theorems(u, cv, lq)
         add_quad_box_theorem(u, cv, lq)
+        add_length(u, cv)
     lc = cubic_root_lemma()
     for dim in (2, 3):
         cv = Curve(3, dim)
@@ -269,9 +322,13 @@ def plan(exp, tier):
         u.take(cv.path, 'impl<T: Real> %s<T>' % cv.name, 'evaluate', C(ensures=veq(cv.sh, 'res', bern(3, pts, t))))
         add_cubic(u, cv)
         add_cubic_theorems(u, cv, lc)
-    for lm in lq + lc:
+        add_length(u, cv)
+    lt = triangle_lemmas() + [bern_end_lemma(2), bern_end_lemma(3)]
+    import prelude
+    u.add_root(prelude.FROM_U16)
+    for lm in lq + lc + lt:
         u.add_root(lm.verus_text('C15'))
-    p.lemmas += lq + lc + [opscore.lerp_lemma()]
+    p.lemmas += lq + lc + lt + [opscore.lerp_lemma()]
     p.add_unit('c15', u, ['ops', 'vec', 'quaternion', 'transform', 'mat', 'geom', 'bezier'])
     p.not_decided += ['cubic extremality (no point of the cubic on [0,1] lies beyond evaluate(min/max)): the parameters are proved to lie in [0,1] and the reported inflections to be zeros of the derivative in (0,1); the min/max selection is contracted by cases but its extremality theorem is not discharged',
                       'binary_search_point(_by_steps) (generic IntoIterator loop and a while search; termination is not claimed)',
